@@ -129,6 +129,8 @@ class DataPathCheck:
                "events_validated": sum(len(t) for t in self.traces),
                "violations_of_other_properties_seen": getattr(self, "other_viols", {}),
                "known_findings_seen": {k: v for k, v in self.verdict.known.items()},
+               "observations": {"persist_wait_timeouts (DESIGN.md O1)":
+                                sum(1 for t in self.traces if any(e["ev"] == "PersistWaitTimeout" for e in t))},
                "engines": sorted({s["engine"] for s in self.scen})}
         if extra:
             cov.update(extra)
